@@ -179,12 +179,25 @@ func TestVP_C07_ServerBodyLimit(t *testing.T) {
 		L := vpC07GenLimit(t, vpScale(64*1024, 256*1024))
 		size, rel := vpC07GenSize(t, L)
 		rbs := rapid.SampledFrom([]int{4096, 4096, 256, 512, 1024, 8192, 300}).Draw(t, "rbs")
-		framing := rapid.SampledFrom([]string{"fixed", "chunked", "chunked", "fixed-unsent", "chunked-unsent"}).Draw(t, "framing")
+		framing := rapid.SampledFrom([]string{"fixed", "chunked", "chunked", "fixed-unsent", "chunked-unsent", "fixed-multipart"}).Draw(t, "framing")
 		expect100 := rapid.IntRange(0, 7).Draw(t, "expect100") == 7
 		rmu := rapid.Bool().Draw(t, "rmu")
 		stayOpen := rapid.Bool().Draw(t, "stayopen")
 		body := vpC07Payload(size, L)
 		head := "POST /c07 HTTP/1.1\r\nHost: example.com\r\n"
+		var formValue []byte // fixed-multipart: the value of the single form field
+		if framing == "fixed-multipart" {
+			// a well-formed multipart/form-data body of exactly size bytes (the server pre-parses such bodies
+			// when their length is fixed); sizes too small for the multipart syntax are sent as a plain body
+			const pre, post = "--vpB\r\nContent-Disposition: form-data; name=\"f\"\r\n\r\n", "\r\n--vpB--\r\n"
+			if size >= len(pre)+len(post) {
+				formValue = vpC07Payload(size-len(pre)-len(post), L)
+				body = append(append([]byte(pre), formValue...), post...)
+				head += "Content-Type: multipart/form-data; boundary=vpB\r\n"
+			} else {
+				framing = "fixed"
+			}
+		}
 		if expect100 {
 			head += "Expect: 100-continue\r\n"
 		}
@@ -192,7 +205,7 @@ func TestVP_C07_ServerBodyLimit(t *testing.T) {
 		overhead := 0 // bytes of chunk syntax the server may have to read before it can know that L is exceeded
 		sent := size  // body bytes actually on the wire
 		switch framing {
-		case "fixed":
+		case "fixed", "fixed-multipart":
 			head += fmt.Sprintf("Content-Length: %d\r\n\r\n", size)
 			wire = body
 		case "fixed-unsent": // the length is only declared; at most a few bytes follow and the connection stays open
@@ -224,7 +237,7 @@ func TestVP_C07_ServerBodyLimit(t *testing.T) {
 			overhead = len(wire)
 		}
 		stream := append([]byte(head), wire...)
-		if framing == "fixed" || framing == "chunked" {
+		if framing == "fixed" || framing == "chunked" || framing == "fixed-multipart" {
 			// a follow-up request: must never be served behind a refused one
 			stream = append(stream, "GET /after HTTP/1.1\r\nHost: example.com\r\n\r\n"...)
 		}
@@ -237,7 +250,16 @@ func TestVP_C07_ServerBodyLimit(t *testing.T) {
 			Handler: func(ctx *RequestCtx) {
 				mu.Lock()
 				calls = append(calls, string(ctx.Method())+" "+string(ctx.Path()))
-				seen = append(seen, append([]byte(nil), ctx.PostBody()...))
+				if formValue != nil && ctx.IsPost() {
+					// the pre-parsed form is the body; PostBody would re-serialise it
+					var v []byte
+					if f, err := ctx.MultipartForm(); err == nil && len(f.Value["f"]) == 1 {
+						v = []byte(f.Value["f"][0])
+					}
+					seen = append(seen, v)
+				} else {
+					seen = append(seen, append([]byte(nil), ctx.PostBody()...))
+				}
 				mu.Unlock()
 				ctx.SetBodyString("ok")
 			},
@@ -324,7 +346,11 @@ func TestVP_C07_ServerBodyLimit(t *testing.T) {
 		if len(calls) < 1 || calls[0] != "POST /c07" {
 			t.Fatalf("body of %d bytes <= MaxRequestBodySize %d was not delivered to the handler: calls=%q codes=%v (%s) out=%s", size, L, calls, codes, desc, vpQuote(out, 300))
 		}
-		if !bytes.Equal(seen[0], body) {
+		if formValue != nil {
+			if !bytes.Equal(seen[0], formValue) {
+				t.Fatalf("multipart body of %d bytes <= MaxRequestBodySize %d: form field arrived altered: handler saw %d bytes %s (%s)", size, L, len(seen[0]), vpQuote(seen[0], 80), desc)
+			}
+		} else if !bytes.Equal(seen[0], body) {
 			t.Fatalf("body of %d bytes <= MaxRequestBodySize %d arrived altered: handler saw %d bytes %s (%s)", size, L, len(seen[0]), vpQuote(seen[0], 80), desc)
 		}
 		if len(codes) < 1 || codes[0] != 200 {
@@ -482,7 +508,7 @@ func TestVP_C07_ClientBodyLimit(t *testing.T) {
 		eof := true
 		complete := true
 		switch framing {
-		case "fixed":
+		case "fixed", "fixed-multipart":
 			head += fmt.Sprintf("Content-Length: %d\r\n\r\n", size)
 			wire = body
 		case "fixed-unsent":
